@@ -31,7 +31,7 @@ def run(ctx, rep):
     r = rep.rule("C10-EQ-SAME", "`=` and `!=` resolve to PartialEq for JsonValue; ContextKey's PartialEq, Eq and Hash "
                  "are derived; the duplicate set is a HashSet<ContextKey>", floor=6, analysis="A1 resolved callees + impl facts")
     for fn in ("eq", "neq"):
-        bs = [b for n, b in lib.bodies.items() if n.startswith("<functions::boolean::compare::%s::get::" % fn)
+        bs = [b for n, b in lib.bodies.items() if n.startswith("<functions::boolean::compare::%s::" % fn)
               and n.endswith("as selection::Get>::get")]
         key = "compare::%s" % fn
         if not bs:
